@@ -69,7 +69,12 @@ def judge_case(prog, ctx, detail, mode, scratch, aliased: bool = False) -> Tuple
 
             pipe0 = build_aliased(prog)
         records, files, real, pipe, driver = traces.traced_single(prog, dkind, ctx, detail=detail, mode=mode, scratch=scratch, pipeline=pipe0)
+    except traces.TraceUnreadable as exc:
+        return ("trace-not-parsable", f"the trace file cannot be read back as JSON lines: {exc}"), {"class": f"{ref.status}:{ref.error}@{ref.index}", "records": 0}
     except Exception as exc:  # loader / Pipeline() refuses the configuration: nothing ran, nothing to trace
+        if not (ref.status == "construct" and ref.error == type(exc).__name__):
+            return ("loader-or-driver-refuses-valid-configuration", f"{type(exc).__name__}: {str(exc)[:200]} (reference: {ref.status} {ref.error})"), \
+                {"class": "loader-rejects:" + type(exc).__name__}
         return None, {"class": "loader-rejects:" + type(exc).__name__}
     info = {"class": f"{ref.status}:{ref.error}@{ref.index}", "records": len(records)}
     returned = real.status == "ok"
